@@ -98,8 +98,15 @@ class Sink:
         return sum(1 for e in self.world.network.log if e.netloc == self.netloc)
 
 
-def _expect_untouched(ctx, world, sink, before, wire_before, results_before, key, what, detail):
+def _expect_untouched(ctx, world, sink, before, wire_before, results_before, key, what, detail, single_key=False):
     after = snap(world.mdib)
+    if single_key:  # one mechanism, one key (known finding): every symptom is reported under it
+        diffs = snap_equal(before, after, keys=('version', 'descr', 'states', 'ctx'))
+        if (diffs or before['hvl'] != after['hvl'] or before['sizes'] != after['sizes'] or after.get('index_problems')
+                or sink.wire_count() != wire_before or len(sink.results) != results_before):
+            ctx.witness(key, what, {**detail, 'diff': diffs[:4], 'index_problems': after.get('index_problems', [])[:2]})
+            return False, after
+        return True, after
     diffs = snap_equal(before, after, keys=('version', 'descr', 'states', 'ctx'))
     bad = False
     if diffs:
@@ -348,7 +355,7 @@ def w_commit_failures(ctx: core.Ctx, arg):
             opk = op2['op']
             _expect_untouched(ctx, world, sink, before, wire_before, results_before, 'commit_fail.failpoint.no_rollback',
                               'the commit failed at its n-th table update but the MDIB is left partially committed (no rollback)',
-                              {'op': op2, 'failpoint': where, 'n': counter['fail_at'], 'of': total, 'mdib_file': mdib_file})
+                              {'op': op2, 'failpoint': where, 'n': counter['fail_at'], 'of': total, 'mdib_file': mdib_file}, single_key=True)
             ctx.case(('failpoint', opk, where, counter['fail_at'] == 1, counter['fail_at'] == total))
             # the MDIB may be inconsistent now: start from a fresh world for the next trial
             world.stop()
